@@ -444,7 +444,7 @@ class MatcherGen:
         k = r.random()
         if k < 0.12:
             return ANY
-        if k < 0.85 or depth <= 0:
+        if k < (0.85 if depth < 2 else 0.65) or depth <= 0:
             return self.word(pool)
         return {'k': 'list', 'pos': [self.text(pool, depth - 1) for _ in range(r.randint(0, 2))],
                 'neg': [self.text(pool, depth - 1) for _ in range(r.randint(0, 1))]}
